@@ -45,6 +45,8 @@ type Gen struct {
 	noOverflowObl bool
 	loopCache   map[*ssa.Function][]loopStmt
 	tracedArgTypes map[string][]types.Type
+	tracedResTypes map[string][]types.Type
+	tracedPkg      map[string]string
 	modDirty    bool
 	funcSet     map[*ssa.Function]bool
 	ctCache     map[*ssa.Function]ctEntry
@@ -286,7 +288,15 @@ func (g *Gen) needSubstrAxiom(e *Enc) {
 		I, I, I, e.iop("+", "lo", "i", true)))
 }
 
-// calleeArgType: type of the j-th reference-typed argument of the traced callee.
+func (g *Gen) calleeResType(name string, i int) types.Type {
+	t, ok := g.tracedResTypes[name]
+	if !ok || i >= len(t) {
+		return nil
+	}
+	return t[i]
+}
+
+// calleeArgType: type of the j-th argument (receiver first) of the traced callee.
 func (g *Gen) calleeArgType(name string, j int) types.Type {
 	t, ok := g.tracedArgTypes[name]
 	if !ok || j >= len(t) {
@@ -317,7 +327,7 @@ func (g *Gen) newFuncGen(fn *ssa.Function, ct *Contract, props []string) *FuncGe
 	fg := &FuncGen{g: g, enc: newEnc(bv), fn: fn, ct: ct, vals: map[ssa.Value]Val{}, comps: map[string]*Comp{},
 		ghostSort: map[string]string{}, ghostInits: map[string]string{}, paramVals: map[string]Val{}, ordinals: map[string]int{},
 		noteSeen: map[string]bool{}, iterCells: map[*ssa.Range]string{}, callCount: map[string]int{}, nilChecked: map[string]bool{},
-		constLen: map[string]int{}, blockOrder: map[*ssa.BasicBlock]int{}, invAssumed: map[string]bool{}, invTouched: map[string]touched{}, dirty: map[string]bool{}}
+		constLen: map[string]int{}, blockOrder: map[*ssa.BasicBlock]int{}, invAssumed: map[string]bool{}, invTouched: map[string]touched{}, dirty: map[string]bool{}, lastAssert: map[string]int{}}
 	fg.props = props
 	return fg
 }
@@ -571,7 +581,7 @@ func load(repo string) (*Gen, error) {
 	g := &Gen{fset: pkgs[0].Fset, pkgs: pkgs, byPath: map[string]*packages.Package{}, allTypes: map[string]*types.Package{},
 		filesByName: map[string]*ast.File{}, funcIDs: map[string]int{}, typeByKey: map[string]types.Type{},
 		modCache: map[*ssa.Function]*ModSet{}, modBusy: map[*ssa.Function]bool{}, traced: map[string]bool{}, loopCache: map[*ssa.Function][]loopStmt{},
-		tracedArgTypes: map[string][]types.Type{}, ctCache: map[*ssa.Function]ctEntry{}}
+		tracedArgTypes: map[string][]types.Type{}, tracedResTypes: map[string][]types.Type{}, tracedPkg: map[string]string{}, ctCache: map[*ssa.Function]ctEntry{}}
 	g.sizes = types.SizesFor("gc", "amd64")
 	var nerr int
 	packages.Visit(pkgs, nil, func(p *packages.Package) {
@@ -650,8 +660,8 @@ func (g *Gen) findTraced() {
 	walk = func(e SExpr) {
 		switch x := e.(type) {
 		case *SCall:
-			if (x.Fun == "ncalls" || x.Fun == "callarg" || x.Fun == "callseq") && len(x.Args) > 0 {
-				g.traced[strings.ReplaceAll(x.Args[0].String(), " ", "")] = true
+			if (x.Fun == "ncalls" || x.Fun == "callarg" || x.Fun == "callseq" || x.Fun == "callres") && len(x.Args) > 0 {
+				g.traced[calleeKeyOf(x.Args[0])] = true
 			}
 			for _, a := range x.Args {
 				walk(a)
@@ -704,17 +714,61 @@ func (g *Gen) findTraced() {
 		if !g.traced[name] {
 			continue
 		}
+		if _, have := g.tracedArgTypes[name]; have && fn.Pkg.Pkg.Path() != g.tracedPkg[name] && !strings.HasSuffix(fn.Pkg.Pkg.Path(), "/runtime") {
+			continue // prefer the v1 runtime package when two packages share a function name
+		}
+		g.tracedPkg[name] = fn.Pkg.Pkg.Path()
 		var ts []types.Type
-		if r := fn.Signature.Recv(); r != nil && (isPtr(r.Type()) || isMap(r.Type())) {
+		if r := fn.Signature.Recv(); r != nil {
 			ts = append(ts, r.Type())
 		}
 		for i := 0; i < fn.Signature.Params().Len(); i++ {
-			t := fn.Signature.Params().At(i).Type()
-			if isPtr(t) || isMap(t) {
-				ts = append(ts, t)
-			}
+			ts = append(ts, fn.Signature.Params().At(i).Type())
 		}
 		g.tracedArgTypes[name] = ts
+		var rs []types.Type
+		for i := 0; i < fn.Signature.Results().Len(); i++ {
+			rs = append(rs, fn.Signature.Results().At(i).Type())
+		}
+		g.tracedResTypes[name] = rs
+	}
+	g.externTraceTypes()
+	for _, name := range sortedKeys(g.traced) {
+		if _, ok := g.tracedArgTypes[name]; !ok {
+			g.bindErrors = append(g.bindErrors, "call trace refers to unknown function "+name)
+		}
+	}
+}
+
+// externTraceTypes resolves the signature of a traced external function "pkg.Name".
+func (g *Gen) externTraceTypes() {
+	for name := range g.traced {
+		i := strings.Index(name, ".")
+		if i <= 0 || strings.HasPrefix(name, "(") {
+			continue
+		}
+		if _, ok := g.tracedArgTypes[name]; ok {
+			continue
+		}
+		for _, path := range sortedKeys(g.allTypes) {
+			p := g.allTypes[path]
+			if p.Name() != name[:i] {
+				continue
+			}
+			if f, ok := p.Scope().Lookup(name[i+1:]).(*types.Func); ok {
+				sig := f.Type().(*types.Signature)
+				var ts, rs []types.Type
+				for k := 0; k < sig.Params().Len(); k++ {
+					ts = append(ts, sig.Params().At(k).Type())
+				}
+				for k := 0; k < sig.Results().Len(); k++ {
+					rs = append(rs, sig.Results().At(k).Type())
+				}
+				g.tracedArgTypes[name] = ts
+				g.tracedResTypes[name] = rs
+				break
+			}
+		}
 	}
 }
 
